@@ -155,8 +155,83 @@ def find_fn(mod, name):
     if not fns: raise Unsupported(f"no function `{name}`")
     return fns[-1]
 
+def norm(stmts):
+    """statements as text, without docstrings, assertions and progress updates"""
+    out = []
+    for s in stmts:
+        if isinstance(s, ast.Expr) and isinstance(s.value, ast.Constant): continue
+        if isinstance(s, ast.Assert): continue
+        if isinstance(s, ast.Expr) and isinstance(s.value, ast.Call) and ast.unparse(s.value.func) == "pbh_update": continue
+        out.append(s)
+    return out
+
+def expect(stmts, texts, where, unordered=False):
+    got = [ast.unparse(s) for s in stmts]
+    if (sorted(got) != sorted(texts)) if unordered else (got != texts):
+        bad = next((g for g in got if g not in texts), None) or next((t for t in texts if t not in got), "order of statements")
+        raise Unsupported(f"{where}: `{bad[:90]}`")
+
+def translate_blocks(mod):
+    """`_sim_block` (rows start … end−1, accumulated into counts / columns / values) and `_sim_blocks` (blocks of `block_size` rows,
+    concatenated in block order, counts turned into row pointers by a cumulative sum) — matched statement by statement against the
+    accumulation idiom they are written in; the statements inside each loop body may come in any order."""
+    blk = find_fn(mod, "_sim_block"); body = norm(blk.body)
+    if [a.arg for a in blk.args.args] != ["matrix", "start", "end", "min_sim", "max_nbrs", "pbh"]: raise Unsupported("`_sim_block` parameters")
+    loops = [s for s in body if isinstance(s, ast.For)]
+    if len(loops) != 1: raise Unsupported("`_sim_block`: one loop expected")
+    lp = loops[0]; k = body.index(lp)
+    expect(body[:k], ["bsize = end - start", "counts = torch.zeros(bsize, dtype=torch.int32)", "columns = []", "values = []"], "_sim_block set-up", unordered=True)
+    if ast.unparse(lp.target) != "i" or ast.unparse(lp.iter) != "range(start, end)" or lp.orelse: raise Unsupported("`_sim_block`: loop header")
+    lb = norm(lp.body)
+    if not lb or ast.unparse(lb[0]) != "c, cs, vs = _sim_row(i, matrix, matrix[i], min_sim, max_nbrs)": raise Unsupported("`_sim_block`: the loop does not start with the `_sim_row` call")
+    expect(lb[1:], ["counts[i - start] = c", "columns.append(cs)", "values.append(vs)"], "_sim_block loop body", unordered=True)
+    expect(body[k + 1:], ["return (counts, torch.cat(columns), torch.cat(values).to(torch.float32))"], "_sim_block result")
+    blks = find_fn(mod, "_sim_blocks"); body = norm(blks.body)
+    if [a.arg for a in blks.args.args] != ["matrix", "min_sim", "max_nbrs", "block_size", "pbh"]: raise Unsupported("`_sim_blocks` parameters")
+    loops = [s for s in body if isinstance(s, ast.For)]
+    if len(loops) != 2: raise Unsupported("`_sim_blocks`: two loops expected")
+    l1, l2 = loops; k1, k2 = body.index(l1), body.index(l2)
+    pre = [s for s in body[:k1] if not (isinstance(s, ast.AnnAssign) and ast.unparse(s.target) == "jobs")]
+    if len(pre) != len(body[:k1]) - 1: raise Unsupported("`_sim_blocks`: no `jobs` list")
+    ja = next(s for s in body[:k1] if isinstance(s, ast.AnnAssign)); 
+    if ast.unparse(ja.value) != "[]": raise Unsupported("`_sim_blocks`: `jobs` does not start empty")
+    expect(pre, ["nitems, nusers = matrix.shape"], "_sim_blocks set-up")
+    if ast.unparse(l1.target) != "start" or ast.unparse(l1.iter) != "range(0, nitems, block_size)" or l1.orelse: raise Unsupported("`_sim_blocks`: first loop header")
+    expect(norm(l1.body), ["end = min(start + block_size, nitems)", "jobs.append(torch.jit.fork(_sim_block, matrix, start, end, min_sim, max_nbrs, pbh))"], "_sim_blocks first loop")
+    expect(body[k1 + 1:k2], ["counts = [torch.tensor([0], dtype=torch.int32)]", "columns = []", "values = []"], "_sim_blocks accumulators", unordered=True)
+    if ast.unparse(l2.target) != "job" or ast.unparse(l2.iter) != "jobs" or l2.orelse: raise Unsupported("`_sim_blocks`: second loop header")
+    lb = norm(l2.body)
+    if not lb or ast.unparse(lb[0]) != "cts, cis, vs = job.wait()": raise Unsupported("`_sim_blocks`: the second loop does not start with `job.wait()`")
+    expect(lb[1:], ["counts.append(cts)", "columns.append(cis)", "values.append(vs)"], "_sim_blocks second loop", unordered=True)
+    tail = body[k2 + 1:]
+    if not tail or not isinstance(tail[-1], ast.Return): raise Unsupported("`_sim_blocks`: no result")
+    expect(tail[:-1], ["c_cat = torch.cat(counts)", "crow_indices = torch.cumsum(c_cat, 0, dtype=torch.int32)", "col_indices = torch.cat(columns)", "c_values = torch.cat(values)"], "_sim_blocks assembly", unordered=True)
+    if ast.unparse(tail[-1].value) != "torch.sparse_csr_tensor(crow_indices=crow_indices, col_indices=col_indices, values=c_values, size=(nitems, nitems))":
+        raise Unsupported("`_sim_blocks`: result is not the CSR tensor of (crow_indices, col_indices, c_values)")
+    if ast.unparse(l1.iter).count("nitems") != 1: raise Unsupported("range")
+    return ("""/-- `_sim_block`: `(counts, cat(columns), cat(values))` for rows `start … end − 1`; `nnz i` is the number of stored entries of row `i` -/
+def simBlockT (matrix : List (List Q)) (start end_ : Nat) (min_sim : Q) (max_nbrs : Option Nat) (nnz : Nat → Nat) : List Nat × List Nat × List Q :=
+  let rows := (pyRange start end_).map (fun i => simRowT i matrix (matrix.getD i []) (nnz i) min_sim max_nbrs)
+  let counts := rows.map (fun r => r.1.length)
+  let columns := rows.map (fun r => r.1)
+  let values := rows.map (fun r => r.2)
+  (counts, columns.flatten, values.flatten)
+
+/-- `_sim_blocks`: the CSR triple `(crow_indices, col_indices, values)` -/
+def simBlocksT (matrix : List (List Q)) (min_sim : Q) (max_nbrs : Option Nat) (block_size : Nat) (nnz : Nat → Nat) : List Nat × List Nat × List Q :=
+  let nitems := matrix.length
+  let jobs := (pyRangeStep nitems block_size nitems 0).map (fun start =>
+    let end_ := min (start + block_size) nitems
+    simBlockT matrix start end_ min_sim max_nbrs nnz)
+  let counts := [[0]] ++ jobs.map (fun j => j.1)
+  let columns := jobs.map (fun j => j.2.1)
+  let values := jobs.map (fun j => j.2.2)
+  let c_cat := counts.flatten
+  (cumsum c_cat, columns.flatten, values.flatten)
+""", ast.get_source_segment(open(mod._path).read(), blk) + ast.get_source_segment(open(mod._path).read(), blks))
+
 def translate(src_root):
-    rel = "knn/item.py"; src = open(os.path.join(src_root, rel)).read(); mod = ast.parse(src)
+    rel = "knn/item.py"; src = open(os.path.join(src_root, rel)).read(); mod = ast.parse(src); mod._path = os.path.join(src_root, rel)
     fn = find_fn(mod, "_sim_row")
     names = [a.arg for a in fn.args.args]
     if names != list(PARAM_TYPES): raise Unsupported(f"`_sim_row` parameters are {names}")
@@ -171,13 +246,15 @@ def translate(src_root):
         raise Unsupported("`_sim_block` does not loop `for i in range(start, end)` around the call")
     t = T(); env = {k: (k, v) for k, v in PARAM_TYPES.items()}
     body = t.block(fn.body, env, 1)
-    seg = ast.get_source_segment(src, fn) + "\n" + ast.unparse(calls[0])
+    btext, bseg = translate_blocks(mod)
+    seg = ast.get_source_segment(src, fn) + "\n" + bseg
     head = ("import LK.Model.TorchOps\n/-! GENERATED by translate/py2lean_sim.py on every run of `./check C09`; do not edit.\n"
-            f"* `simRowT` ← {rel} _sim_row (called from _sim_block with `row = matrix[i]`), source sha256/64 {hashlib.sha256(seg.encode()).hexdigest()[:16]}\n"
+            f"* `simRowT`, `simBlockT`, `simBlocksT` ← {rel} _sim_row, _sim_block, _sim_blocks, source sha256/64 {hashlib.sha256(seg.encode()).hexdigest()[:16]}\n"
+            "    - `nitems` is the number of rows of `matrix`; `torch.jit.fork(f, …)` / `.wait()` is the call `f(…)` (results are consumed in submission order)\n"
             "    - `rowNnz` stands for `len(row.indices())`, the number of stored entries of the sparse row\n"
             + "".join(f"    - {n}\n" for n in dict.fromkeys(t.notes)) + "-/\nset_option linter.unusedVariables false\nnamespace LK.Gen.SimC09\nopen LK.TorchOps LK.ArrayOps LK.KNN\n\n")
     return head + ("def simRowT (item : Nat) (matrix : List (List Q)) (row : List Q) (rowNnz : Nat) (min_sim : Q) (max_nbrs : Option Nat) : List Nat × List Q :=\n"
-                   f"{body}\n\nend LK.Gen.SimC09\n")
+                   f"{body}\n\n{btext}\nend LK.Gen.SimC09\n")
 
 if __name__ == "__main__":
     print(translate(sys.argv[1] if len(sys.argv) > 1 else "/repo/src/lenskit"))
